@@ -384,6 +384,42 @@ theorem pipeline_output_roundtrips (fuel : Nat) (ctx : PRef → Option (List (St
                 rw [this] at hok
                 exact export_wfTarget _ pc.2 pt.2 hok hexp
   exact ⟨hshape, module_roundtrip _ p hshape⟩
+/-- **Every module of the package of an F1 design round-trips**: put through `pipelineDesign` (children first), each exported
+    module is imported without error — against the port names of what the package held when it was written: modules exported
+    before it, declared external modules, primitives — and exported back identically. -/
+theorem design_output_roundtrips (fuel : Nat) (exts : List PExt) (hext : ∀ e ∈ exts, (e.ports.map (·.1)).Nodup) :
+    ∀ (hs : List HModule) (acc mods : List PModule),
+      (∀ h ∈ hs, ModOK₀ h ∧ ∀ i ∈ h.instances, ∀ n, i.ref = .loc n → i.params = []) → (∀ m ∈ acc, (m.ports.map (·.1)).Nodup) →
+      pipelineDesign fuel exts hs acc = .ok mods →
+      ∃ new, mods = acc ++ new ∧ ∀ p ∈ new, ∃ earlier, earlier <+: mods ∧
+        ∃ m, importModule (fun r => (targetPorts ⟨[], exts⟩ earlier r).map (·.map (·.1))) p = .ok m ∧ RoundTrip.exportModule m = .ok p
+  | [], acc, mods, _, _, h => by
+    unfold pipelineDesign at h; injection h with h; subst h
+    exact ⟨[], by simp, fun _ hp => by cases hp⟩
+  | h :: rest, acc, mods, hm, hacc, hp => by
+    unfold pipelineDesign at hp
+    cases h1 : pipeline fuel (targetPorts ⟨[], exts⟩ acc) h with
+    | error x => simp [h1] at hp
+    | ok p =>
+      simp only [h1] at hp
+      obtain ⟨⟨m1, m2, m3, m4, m5⟩, hpar⟩ := hm h (List.mem_cons_self ..)
+      have hmod : ModOK (targetPorts ⟨[], exts⟩ acc) h := ⟨m1, m2, m3, m4, m5, ctx_ports_distinct exts acc hacc hext⟩
+      have hpn : (p.ports.map (·.1)).Nodup := by
+        rw [pipeline_ports fuel _ h p h1]
+        rw [List.map_append] at m1
+        exact (List.nodup_append.mp m1).2.1
+      obtain ⟨new, hnew, hrest⟩ := design_output_roundtrips fuel exts hext rest (acc ++ [p]) mods
+        (fun x hx => hm x (List.mem_cons_of_mem _ hx))
+        (fun m hmem => by
+          rcases List.mem_append.mp hmem with hm' | hm'
+          · exact hacc m hm'
+          · simp at hm'; subst hm'; exact hpn) hp
+      refine ⟨p :: new, by rw [hnew]; simp, ?_⟩
+      intro q hq
+      rcases List.mem_cons.mp hq with rfl | hq
+      · exact ⟨acc, ⟨[q] ++ new, by rw [hnew]; simp⟩, (pipeline_output_roundtrips fuel _ h q hmod hpar h1).2⟩
+      · exact hrest q hq
+
 end Pipeline
 
 end Hdl21.Props.C11
